@@ -155,6 +155,59 @@ def m_ok_or_else_apply(it, st, args, info):
             for s2, r in it.apply_callable(s, args[1], [], info['site']): outs.append((s2, ERR(r)))
     return outs
 
+def m_option_filter(it, st, args, info):
+    x = strip_named(it.deref(st, args[0]))
+    outs = []
+    for s, v in it.fork_variants(st, x, ['Some', 'None'], info['site']):
+        if v == 'None': outs.append((s, NONE)); continue
+        val = variant_payload(x, 'Some')
+        slot = ('tmpval', id(info), s.nfork)
+        for s2, r in it.apply_callable(s, args[1], [val], info['site']):
+            r = strip_named(r)
+            for s3, b in branch_bool(it, s2, r, info['site']):
+                outs.append((s3, SOME(val) if b else NONE))
+    return outs
+
+def branch_bool(it, st, r, site):
+    """fork on a boolean term: [(state, bool)]"""
+    if r[0] == 'c' and isinstance(r[1], bool): return [(st, r[1])]
+    res = []
+    for s, bb in it.branch(st, r, [('0', 0)], 1, site, 'bool'):
+        res.append((s, bool(bb)))
+    return res
+
+def m_option_take(it, st, args, info):
+    a = args[0]
+    cur = strip_named(it.deref(st, a))
+    if a[0] == 'ref': it.write_addr(st, a[1], NONE)
+    return cur
+
+def m_option_replace(it, st, args, info):
+    a = args[0]
+    cur = strip_named(it.deref(st, a))
+    if a[0] == 'ref': it.write_addr(st, a[1], SOME(args[1]))
+    return cur
+
+def m_bool_then_some(it, st, args, info):
+    b = strip_named(it.deref(st, args[0]))
+    return [(s, SOME(args[1]) if v else NONE) for s, v in branch_bool(it, st, b, info['site'])]
+
+def m_bool_then(it, st, args, info):
+    b = strip_named(it.deref(st, args[0]))
+    outs = []
+    for s, v in branch_bool(it, st, b, info['site']):
+        if not v: outs.append((s, NONE)); continue
+        for s2, r in it.apply_callable(s, args[1], [], info['site']): outs.append((s2, SOME(r)))
+    return outs
+
+def m_result_err(it, st, args, info):
+    x = strip_named(it.deref(st, args[0]))
+    return [(s, SOME(variant_payload(x, 'Err')) if v == 'Err' else NONE) for s, v in it.fork_variants(st, x, ['Ok', 'Err'], info['site'])]
+
+def m_option_or(it, st, args, info):
+    x = strip_named(it.deref(st, args[0]))
+    return [(s, SOME(variant_payload(x, 'Some')) if v == 'Some' else args[1]) for s, v in it.fork_variants(st, x, ['Some', 'None'], info['site'])]
+
 def m_as_ref(it, st, args, info):
     return it.deref(st, args[0])
 
@@ -494,6 +547,13 @@ EXACT = {
     'std::result::Result::<T, E>::map_or_else': mk_map_or('Ok', 'Err', True),
     'std::option::Option::<T>::is_some_and': mk_is_and('Some', 'None'),
     'std::result::Result::<T, E>::is_ok_and': mk_is_and('Ok', 'Err'),
+    'std::option::Option::<T>::filter': m_option_filter,
+    'std::option::Option::<T>::take': m_option_take,
+    'std::option::Option::<T>::replace': m_option_replace,
+    'std::option::Option::<T>::or': m_option_or,
+    'core::bool::<impl bool>::then_some': m_bool_then_some,
+    'core::bool::<impl bool>::then': m_bool_then,
+    'std::result::Result::<T, E>::err': m_result_err,
     'std::option::Option::<T>::as_ref': m_as_ref, 'std::option::Option::<T>::as_mut': m_as_ref,
     'std::option::Option::<&T>::cloned': m_as_ref, 'std::option::Option::<&T>::copied': m_as_ref,
     'std::result::Result::<T, E>::as_ref': m_as_ref,
